@@ -460,7 +460,7 @@ def gen(rng, shard, nshards, names, n_per_field, n_binary):
         cases.extend(cs)
     if n_binary:
         cases.extend(gen_binary(rng, n_binary))
-    return cases
+    return vary_forms(cases, rng)
 
 
 QUICK_CONFIGS = ["default", "m51", "w32"]
